@@ -60,6 +60,15 @@ class ArraySchemaBackend(PandasSchemaBackend):
                 check_obj[schema.name] = self.coerce_dtype(
                     check_obj[schema.name], schema=schema
                 )
+
+            # coercion can itself produce nulls (e.g. the text "nan" coerced
+            # to float): fill those as well
+            if (
+                schema.coerce
+                and hasattr(schema, "default")
+                and schema.default is not None
+            ):
+                check_obj = self.set_default(check_obj, schema)
         except SchemaError as exc:
             error_handler.collect_error(
                 validation_type(exc.reason_code),
